@@ -12,14 +12,17 @@ only the harness' statistics use.
     io_mm_rt_sparse   L kind b e <CRS>    →  <hex written> <read result>
     io_mm_rt_dense    L kind b e n m <val>→  <hex written> <read result>
     io_bin_crs_size   L hex               →  ok n | error
-    io_bin_read_crs   L w hex b e         →  ok n <ptr> <col> <val> | error | oob        (w = 8-byte words per value)
-    io_bin_read_dense L w hex b e         →  ok n m <val> | error
-    io_bin_rt_crs     L w b e <CRS>       →  <hex written> <read result>
-    io_bin_rt_dense   L w b e n m <val>   →  <hex written> <read result>
+    io_bin_read_crs   L T hex b e         →  ok n <ptr> <col> <val> | error | oob
+    io_bin_read_dense L T hex b e         →  ok n m <val> | error
+    io_bin_rt_crs     L T b e <CRS>       →  <hex written> <read result>
+    io_bin_rt_dense   L T b e n m <val>   →  <hex written> <read result>
     io_libc_roundtrip L count seed        →  tested          (libc `%.20e`/`strtod` test of the harness; no model content)
 
 kind ∈ real | complex | integer; real values are the exact rationals of binary64 numbers, complex values two of
-them, integer values `int`s; binary values are bit patterns (one decimal `u64` per 8-byte word).
+them, integer values `int`s.  `T` is the instantiation of the binary reader: `1` = `double` values (one 8-byte word),
+`2` = `std::complex<double>` (two 8-byte words), `f` = `float` (one 4-byte word), each with `Col = ptrdiff_t`; sparse
+ops also take `i1`, `i2`, `if` = the same value types with `Col = int` (4-byte column indices).  Binary values are bit
+patterns (one decimal number per word).
 -/
 namespace Amgcl.Driver.IO
 open Amgcl Amgcl.Driver Amgcl.IO
@@ -118,11 +121,36 @@ def withKind (kind : String) (args : List String)
   | "integer" => f intOps args
   | _ => badInput
 
-/-- binary values: `w` little-endian 8-byte words -/
-def binDec (w : Nat) (bs : Bytes) : List Nat := (splitEvery 8 w bs).map leVal
-def binEnc (v : List Nat) : Bytes := v.flatMap enc64
+/-- an instantiation of the binary readers: size and codec of a stored column index, a value = `wn` little-endian
+words of `ws` bytes -/
+structure BinT where
+  csz : Nat
+  cdec : Bytes → Int
+  cenc : Int → Bytes
+  ws : Nat
+  wn : Nat
+
+def BinT.vsz (t : BinT) : Nat := t.ws * t.wn
+/-- binary values: `wn` little-endian words of `ws` bytes -/
+def BinT.dec (t : BinT) (bs : Bytes) : List Nat := (splitEvery t.ws t.wn bs).map leVal
+def BinT.enc (t : BinT) (v : List Nat) : Bytes := v.flatMap (if t.ws = 4 then enc32 else enc64)
 def showWords (v : List Nat) : String := joinSp (v.map toString)
-def pWords (w : Nat) : P (List Nat) := pMany w (do let x ← pNat; if x < two64 then pure x else fail)
+def BinT.pWords (t : BinT) : P (List Nat) :=
+  pMany t.wn (do let x ← pNat; if x < 256 ^ t.ws then pure x else fail)
+
+def binVal (tok : String) : Option (Nat × Nat) :=
+  match tok with
+  | "1" => some (8, 1)
+  | "2" => some (8, 2)
+  | "f" => some (4, 1)
+  | _ => none
+
+/-- the type token of a sparse op (`i…` = `Col = int`) / of a dense op (no column type) -/
+def binT (sparse : Bool) (tok : String) : Option BinT :=
+  match tok.toList with
+  | 'i' :: rest =>
+    if sparse then (binVal (String.ofList rest)).map fun (ws, wn) => ⟨4, decS32, encS32, ws, wn⟩ else none
+  | _ => (binVal tok).map fun (ws, wn) => ⟨8, decS64, encS64, ws, wn⟩
 
 def handle (op : String) (args : List String) : Option String :=
   if !op.startsWith "io_" then none else
@@ -135,35 +163,43 @@ def handle (op : String) (args : List String) : Option String :=
   | "io_mm_rt_sparse", kind :: rest => some (withKind kind rest mmRtSparseOp)
   | "io_mm_rt_dense", kind :: rest => some (withKind kind rest mmRtDenseOp)
   | "io_bin_crs_size", rest => withArgs pHex rest fun f => showOutcome toString (binCrsSize f)
-  | "io_bin_read_crs", rest =>
-    withArgs (do let w ← pNat; let f ← pHex; let b ← pInt; let e ← pInt; pure (w, f, b, e)) rest
-      fun (w, f, b, e) =>
-        if w ≠ 1 ∧ w ≠ 2 then badInput else
-        showOutcome (showRaw showWords false) (binReadCrs true memLimit (8 * w) (binDec w) f b e)
-  | "io_bin_read_dense", rest =>
-    withArgs (do let w ← pNat; let f ← pHex; let b ← pInt; let e ← pInt; pure (w, f, b, e)) rest
-      fun (w, f, b, e) =>
-        if w ≠ 1 ∧ w ≠ 2 then badInput else
-        showOutcome (showDense showWords) (binReadDense true memLimit (8 * w) (binDec w) f b e)
-  | "io_bin_rt_crs", w :: rest =>
-    match w.toNat? with
-    | some w =>
-      if w ≠ 1 ∧ w ≠ 2 then some badInput else
-      withArgs (do let b ← pInt; let e ← pInt; let A ← pCRSOf (pWords w); pure (b, e, A)) rest
-        fun (b, e, A) =>
-          let f := binWriteCrs binEnc A
-          showHex f ++ " " ++ showOutcome (showRaw showWords false) (binReadCrs true memLimit (8 * w) (binDec w) f b e)
+  | "io_bin_read_crs", ty :: rest =>
+    match binT true ty with
+    | some t =>
+      withArgs (do let f ← pHex; let b ← pInt; let e ← pInt; pure (f, b, e)) rest
+        fun (f, b, e) =>
+          showOutcome (showRaw showWords false) (binReadCrs true memLimit t.csz t.cdec t.vsz t.dec f b e)
     | none => some badInput
-  | "io_bin_rt_dense", w :: rest =>
-    match w.toNat? with
-    | some w =>
-      if w ≠ 1 ∧ w ≠ 2 then some badInput else
-      withArgs (do let b ← pInt; let e ← pInt; let D ← pDenseOf (pWords w); pure (b, e, D)) rest
+  | "io_bin_read_dense", ty :: rest =>
+    match binT false ty with
+    | some t =>
+      withArgs (do let f ← pHex; let b ← pInt; let e ← pInt; pure (f, b, e)) rest
+        fun (f, b, e) =>
+          showOutcome (showDense showWords) (binReadDense true memLimit t.vsz t.dec f b e)
+    | none => some badInput
+  | "io_bin_rt_crs", ty :: rest =>
+    match binT true ty with
+    | some t =>
+      withArgs (do let b ← pInt; let e ← pInt; let A ← pCRSOf t.pWords; pure (b, e, A)) rest
+        fun (b, e, A) =>
+          if !A.wfb then badInput else
+          let f := binWriteCrs t.cenc t.enc A
+          showHex f ++ " " ++
+            showOutcome (showRaw showWords false) (binReadCrs true memLimit t.csz t.cdec t.vsz t.dec f b e)
+    | none => some badInput
+  | "io_bin_rt_dense", ty :: rest =>
+    match binT false ty with
+    | some t =>
+      withArgs (do let b ← pInt; let e ← pInt; let D ← pDenseOf t.pWords; pure (b, e, D)) rest
         fun (b, e, D) =>
           if D.val.length ≠ D.nrows * D.ncols then badInput else
-          let f := binWriteDense binEnc D
-          showHex f ++ " " ++ showOutcome (showDense showWords) (binReadDense true memLimit (8 * w) (binDec w) f b e)
+          let f := binWriteDense t.enc D
+          showHex f ++ " " ++ showOutcome (showDense showWords) (binReadDense true memLimit t.vsz t.dec f b e)
     | none => some badInput
+  | "io_bin_read_crs", [] => some badInput
+  | "io_bin_read_dense", [] => some badInput
+  | "io_bin_rt_crs", [] => some badInput
+  | "io_bin_rt_dense", [] => some badInput
   | "io_libc_roundtrip", rest =>
     withArgs (do let c ← pNat; let s ← pNat; pure (c, s)) rest fun _ => "tested"
   | _, _ => some "bad-op"
